@@ -25,8 +25,9 @@ class Unsupported(Exception):
 
 
 class Panic(Exception):
-    def __init__(self, msg):
+    def __init__(self, msg, env=None):
         self.msg = msg
+        self.env = env  # state (heap cells) at the moment of the panic
 
 
 # ----------------------------------------------------------------------------------------------- values
@@ -46,8 +47,29 @@ class Enum:
 
 
 class Ref:
-    def __init__(self, frame, local):
-        self.frame, self.local = frame, local
+    """reference to a heap cell (cells live in env under keys starting with '@') plus a field path"""
+
+    def __init__(self, key, path=()):
+        self.key, self.path = key, tuple(path)
+
+
+class Array:
+    def __init__(self, elems):
+        self.elems = list(elems)
+
+
+def deep_get(v, path):
+    for k in path:
+        v = v.fields[k]
+    return v
+
+
+def deep_set(v, path, new):
+    if not path:
+        return new
+    f = list(v.fields)
+    f[path[0]] = deep_set(f[path[0]], path[1:], new)
+    return Struct(v.name, f)
 
 
 UNIT = ("unit",)
@@ -181,6 +203,8 @@ class Interp:
         text = text.strip()
         if "PageSize>::SIZE" in text:
             return BV64(self.size)
+        if text == "MAX":
+            return BV64(self.size)
         m = re.fullmatch(r"(-?\d+)_([ui](?:8|16|32|64|128|size))", text)
         if m:
             w = width_of(m.group(2))
@@ -193,44 +217,118 @@ class Interp:
             return ("str", text)
         raise Unsupported("const " + text)
 
-    def place_get(self, env, place):
+    def parse_place(self, place):
+        """-> (root local, [projection...]) ; projections: ('deref',), ('field', k), ('downcast', V), ('index', local)"""
         place = place.strip()
+        m = re.fullmatch(r"(.+)\[(_\d+)\]", place)
+        if m and self.balanced(m.group(1)):
+            root, proj = self.parse_place(m.group(1))
+            return root, proj + [("index", m.group(2))]
         if re.fullmatch(r"_\d+", place):
-            if place not in env:
-                raise Unsupported("uninitialised local " + place)
-            return env[place]
-        m = re.fullmatch(r"\(\*(_\d+)\)", place)
+            return place, []
+        m = re.fullmatch(r"\(\*(.+)\)", place)
+        if m and self.balanced(m.group(1)):
+            root, proj = self.parse_place(m.group(1))
+            return root, proj + [("deref",)]
+        m = re.fullmatch(r"\((.+) as (\w+)\)", place)
+        if m and self.balanced(m.group(1)):
+            root, proj = self.parse_place(m.group(1))
+            return root, proj + [("downcast", m.group(2))]
+        m = re.fullmatch(r"\((.+)\.(\d+): .*\)", place)
         if m:
-            r = env[m.group(1)]
-            if isinstance(r, Ref):
-                return r.frame[r.local]
-            raise Unsupported("deref of non-ref")
-        m = re.fullmatch(r"\((.+)\.(\d+): [^)]*\)", place)
-        if m:
-            base = m.group(1).strip()
-            dm = re.fullmatch(r"\((.+) as (\w+)\)", base)
-            if dm:
-                e = self.place_get(env, dm.group(1))
-                if not isinstance(e, Enum) or e.variant != dm.group(2):
-                    raise Unsupported("downcast mismatch")
-                return e.payload[int(m.group(2))]
-            b = self.place_get(env, base)
-            if isinstance(b, Struct):
-                return b.fields[int(m.group(2))]
-            raise Unsupported("field of " + repr(b))
+            # the field type may contain parentheses; find the split point by balance
+            inner = place[1:-1]
+            depth = 0
+            for i, ch in enumerate(inner):
+                if ch in "([<":
+                    depth += 1
+                elif ch in ")]>":
+                    depth -= 1
+                elif ch == "." and depth == 0 and re.match(r"\.\d+: ", inner[i:]):
+                    k = int(re.match(r"\.(\d+): ", inner[i:]).group(1))
+                    root, proj = self.parse_place(inner[:i])
+                    return root, proj + [("field", k)]
         raise Unsupported("place " + place)
 
+    @staticmethod
+    def balanced(t):
+        d = 0
+        for ch in t:
+            if ch in "([":
+                d += 1
+            elif ch in ")]":
+                d -= 1
+                if d < 0:
+                    return False
+        return d == 0
+
+    def place_get(self, env, place):
+        root, proj = self.parse_place(place)
+        if root not in env:
+            raise Unsupported("uninitialised local " + root)
+        v = env[root]
+        for pr in proj:
+            if pr[0] == "deref":
+                if not isinstance(v, Ref):
+                    raise Unsupported("deref of non-ref")
+                v = deep_get(env[v.key], v.path)
+            elif pr[0] == "field":
+                if isinstance(v, Struct):
+                    v = v.fields[pr[1]]
+                elif isinstance(v, Enum):
+                    v = v.payload[pr[1]]
+                else:
+                    raise Unsupported("field of " + repr(v))
+            elif pr[0] == "downcast":
+                if not isinstance(v, Enum) or v.variant != pr[1]:
+                    raise Unsupported("downcast mismatch")
+            elif pr[0] == "index":
+                i = env[pr[1]]
+                if not isinstance(v, Array):
+                    raise Unsupported("index of non-array")
+                r = v.elems[-1]
+                for n in range(len(v.elems) - 2, -1, -1):
+                    r = self.ite(i == z3.BitVecVal(n, i.size()), v.elems[n], r)
+                v = r
+        return v
+
+    def ite(self, c, a, b):
+        if isinstance(a, Struct):
+            return Struct(a.name, [self.ite(c, x, y) for x, y in zip(a.fields, b.fields)])
+        if a is UNIT:
+            return a
+        return z3.If(c, a, b)
+
     def place_set(self, env, place, v):
-        place = place.strip()
-        if re.fullmatch(r"_\d+", place):
-            env[place] = v
+        root, proj = self.parse_place(place)
+        if not proj:
+            env[root] = v
             return
-        m = re.fullmatch(r"\(\*(_\d+)\)", place)
-        if m and isinstance(env[m.group(1)], Ref):
-            r = env[m.group(1)]
-            r.frame[r.local] = v
+        # write through: compute the new value of the outermost container functionally
+        def upd(cur, proj):
+            if not proj:
+                return v
+            pr = proj[0]
+            if pr[0] == "field":
+                f = list(cur.fields)
+                f[pr[1]] = upd(f[pr[1]], proj[1:])
+                return Struct(cur.name, f)
+            if pr[0] == "index":
+                i = env[pr[1]]
+                out = []
+                for n, e in enumerate(cur.elems):
+                    out.append(self.ite(i == z3.BitVecVal(n, i.size()), upd(e, proj[1:]), e))
+                return Array(out)
+            raise Unsupported("store projection " + str(pr))
+        if proj[0][0] == "deref":
+            r = env[root]
+            if not isinstance(r, Ref):
+                raise Unsupported("store through non-ref")
+            cell = env[r.key]
+            inner = deep_get(cell, r.path)
+            env[r.key] = deep_set(cell, r.path, upd(inner, proj[1:]))
             return
-        raise Unsupported("store to " + place)
+        env[root] = upd(env[root], proj)
 
     def operand(self, env, text):
         text = text.strip()
@@ -299,14 +397,31 @@ class Interp:
         if m:
             e = self.place_get(env, m.group(1))
             if isinstance(e, Enum):
-                return ("discr", {"Ok": 0, "Err": 1, "None": 0, "Some": 1}[e.variant])
+                return ("discr", {"Ok": 0, "Err": 1, "None": 0, "Some": 1, "UserSegment": 0, "SystemSegment": 1}[e.variant])
             raise Unsupported("discriminant of non-enum")
-        m = re.fullmatch(r"&(?:mut )?\(\*(_\d+)\)", text)
+        m = re.fullmatch(r"&(?:mut |raw const |raw mut )?(.+)", text)
+        if m and not text.startswith("&&"):
+            root, proj = self.parse_place(m.group(1))
+            if proj and proj[0][0] == "deref" and isinstance(env.get(root), Ref):
+                r = env[root]
+                path = list(r.path)
+                for pr in proj[1:]:
+                    if pr[0] != "field":
+                        raise Unsupported("reference to " + text)
+                    path.append(pr[1])
+                return Ref(r.key, path)
+            raise Unsupported("reference to " + text)
+        m = re.fullmatch(r"(.+) as &\[.*\] \(PointerCoercion\(Unsize.*\)\)", text)
         if m:
-            return env[m.group(1)]
-        m = re.fullmatch(r"&(?:mut )?(_\d+)", text)
+            return self.operand(env, m.group(1))
+        m = re.fullmatch(r"PtrMetadata\((.+)\)", text)
         if m:
-            return Ref(env, m.group(1))
+            r = self.operand(env, m.group(1))
+            if isinstance(r, Ref):
+                arr = deep_get(env[r.key], r.path)
+                if isinstance(arr, Array):
+                    return BV64(len(arr.elems))
+            raise Unsupported("PtrMetadata")
         # enum constructors
         m = re.fullmatch(r"(?:core::result::)?Result::<.*>::(Ok|Err)\((.+)\)", text)
         if m:
@@ -343,6 +458,19 @@ class Interp:
             a, b = args
             ok = z3.Extract(127, 64, z3.ZeroExt(64, a) * z3.ZeroExt(64, b)) == 0  # 128-bit product fits
             return [(ok, Enum("Option", "Some", [a * b])), (z3.Not(ok), Enum("Option", "None", []))]
+        if "saturating_sub" in name:
+            a, b = args
+            return [(z3.BoolVal(True), z3.If(z3.UGE(a, b), a - b, z3.BitVecVal(0, a.size())))]
+        if callee.endswith("]>::len") or re.search(r"slice::<impl \[.*\]>::len$", callee):
+            r = args[0]
+            return None if not isinstance(r, Ref) else [(z3.BoolVal(True), BV64(len(deep_get(self.cur_env[r.key], r.path).elems)))]
+        if callee.endswith("gdt::Entry::new") or callee.endswith("Entry::new"):
+            return [(z3.BoolVal(True), Struct("Entry", [args[0]]))]
+        if callee.endswith("Descriptor::dpl"):
+            # pure function of the descriptor (decided for all bit patterns in C15): opaque here
+            return [(z3.BoolVal(True), z3.BitVec("dpl_opaque", 8))]
+        if callee.endswith("SegmentSelector::new"):
+            return [(z3.BoolVal(True), Struct("SegmentSelector", [z3.BitVec("sel_opaque", 16)]))]
         if "is_power_of_two" in name:
             a = args[0]
             p = z3.And(a != 0, (a & (a - 1)) == 0)
@@ -369,11 +497,11 @@ class Interp:
         self.solver.pop()
         return r != z3.unsat
 
-    def call(self, fn, args, pc, depth=0):
+    def call(self, fn, args, pc, depth=0, heap=None):
         if depth > 12:
             raise Unsupported("call depth")
         self.encoded.add(fn.path)
-        env = {}
+        env = dict(heap or {})
         for (n, _t), a in zip(fn.params, args):
             env[n] = a
         return self.run(fn, env, "bb0", pc, depth)
@@ -389,7 +517,7 @@ class Interp:
                 self.statement(fn, env, ln)
             term = lines[-1]
             if term == "return;":
-                return [(pc, env.get("_0", UNIT))]
+                return [(pc, env.get("_0", UNIT), self.heap_of(env))]
             if term == "unreachable;":
                 return []
             m = re.fullmatch(r"goto -> (bb\d+);", term)
@@ -433,7 +561,7 @@ class Interp:
                 out = []
                 bad = z3.And(pc, z3.Not(c))
                 if self.feasible(bad):
-                    out.append((bad, Panic("assert")))
+                    out.append((bad, Panic("assert", self.heap_of(env)), self.heap_of(env)))
                 good = z3.And(pc, c)
                 if self.feasible(good):
                     out += self.run(fn, env, m.group(3), good, depth)
@@ -442,24 +570,28 @@ class Interp:
             if m:
                 dst, callee, argt, nxt = m.group(1), m.group(2), m.group(3), m.group(4)
                 if callee.split("::")[-1] in ("panic", "panic_fmt", "unwrap_failed", "expect_failed", "panic_const_div_by_zero", "panic_nounwind") or callee.endswith("::panic"):
-                    return [(pc, Panic(argt[:60]))]
+                    return [(pc, Panic(argt[:60], self.heap_of(env)), self.heap_of(env))]
                 args = [self.operand(env, a) for a in split_top(argt)] if argt.strip() else []
+                self.cur_env = env
                 res = self.intrinsic(callee, args, pc)
                 if res is None:
                     target = self.resolve(callee)
                     if target is None:
                         raise Unsupported("call to " + callee)
-                    res = [(c, o) for c, o in self.call(target, args, pc, depth + 1)]
+                    res = self.call(target, args, pc, depth + 1, heap=self.heap_of(env))
                 else:
-                    res = [(z3.And(pc, c), o) for c, o in res]
+                    res = [(z3.And(pc, c), o, self.heap_of(env)) for c, o in res]
                 out = []
-                for c, o in res:
+                for c, o, h in res:
                     if not self.feasible(c):
                         continue
                     if isinstance(o, Panic):
-                        out.append((c, o))
+                        if o.env is None:
+                            o = Panic(o.msg, h)
+                        out.append((c, o, h))
                     elif nxt:
                         e2 = self.fork(env)
+                        e2.update(h)
                         self.place_set(e2, dst, o)
                         out += self.run(fn, e2, nxt, c, depth)
                 return out
@@ -468,6 +600,10 @@ class Interp:
     @staticmethod
     def fork(env):
         return dict(env)
+
+    @staticmethod
+    def heap_of(env):
+        return {k: v for k, v in env.items() if k.startswith("@")}
 
     def statement(self, fn, env, ln):
         if ln.startswith(("StorageLive", "StorageDead", "nop", "debug ", "FakeRead", "PlaceMention", "Retag", "AscribeUserType")):
@@ -551,7 +687,7 @@ def decide(fns, ob, sz_name, sz):
         pre.append(z3.URem(a, szv) == 0)
     mk_addr = lambda x: Struct(ob.get("inner", ob["ty"]), [x])
     mk_self = (lambda x: Struct(ob["ty"], [mk_addr(x), UNIT])) if ob["kind"].startswith("page") else mk_addr
-    frame = {}
+    heap = {}
     if ob["kind"] in ("addr", "page"):
         args = [mk_self(a), b]
     elif ob["kind"] in ("addr2", "page2"):
@@ -560,12 +696,12 @@ def decide(fns, ob, sz_name, sz):
             pre.append(z3.URem(b, szv) == 0)
         args = [mk_self(a), mk_self(b)]
     else:  # assign: &mut self
-        frame["self"] = mk_self(a)
-        args = [Ref(frame, "self"), b]
+        heap["@self"] = mk_self(a)
+        args = [Ref("@self"), b]
     for p in pre:
         it.solver.add(p)
     try:
-        outs = it.call(fn, args, z3.BoolVal(True))
+        outs = it.call(fn, args, z3.BoolVal(True), heap=heap)
     except Unsupported as e:
         return dict(verdict="unsupported", why=str(e))
     # exact result in 128 bits
@@ -581,12 +717,12 @@ def decide(fns, ob, sz_name, sz):
         fits = z3.ULE(ext(b), ext(a))
     bad_paths = []
     n_ret = n_panic = 0
-    for pc, o in outs:
+    for pc, o, h in outs:
         if isinstance(o, Panic):
             n_panic += 1
             continue
         n_ret += 1
-        res = frame["self"] if ob["kind"].endswith("assign") else o
+        res = h["@self"] if ob["kind"].endswith("assign") else o
         r = raw_of(res)
         if ob["op"] == "diff":
             want = z3.UDiv(exact, z3.BitVecVal(sz, 128)) if sz else exact
@@ -612,15 +748,114 @@ def decide(fns, ob, sz_name, sz):
         av, bv = m.eval(a, model_completion=True).as_long(), m.eval(b, model_completion=True).as_long()
         # the value the release build returns on this input
         got = None
-        for pc, o in outs:
+        for pc, o, h in outs:
             if isinstance(o, Panic):
                 continue
             if z3.is_true(m.eval(pc, model_completion=True)):
-                resv = frame["self"] if ob["kind"].endswith("assign") else o
+                resv = h["@self"] if ob["kind"].endswith("assign") else o
                 got = m.eval(raw_of(resv), model_completion=True).as_long()
         res.update(verdict="violated", a=av, b=bv, returns=got)
     else:
         res["verdict"] = "holds"
+    return res
+
+
+# ----------------------------------------------------------------------------------------------- C14: state at a panic
+def decide_gdt_append(fns, MAX, system):
+    """GlobalDescriptorTable::<MAX>::append from an arbitrary valid table state: on every path that ends in a
+    panic, the table (all MAX slots and `len`) must be exactly what it was before the call."""
+    t0 = time.time()
+    it = Interp(fns, MAX)
+    fn = fns.get(("GlobalDescriptorTable", None, "append"))
+    if fn is None:
+        return dict(verdict="unsupported", why="append not found in MIR")
+    slots = [z3.BitVec(f"e{i}", 64) for i in range(MAX)]
+    ln = z3.BitVec("len", 64)
+    lo, hi = z3.BitVec("lo", 64), z3.BitVec("hi", 64)
+    pre = [z3.UGE(ln, BV64(1)), z3.ULE(ln, BV64(MAX))]
+    init = Struct("GlobalDescriptorTable", [Array([Struct("Entry", [x]) for x in slots]), ln])
+    heap = {"@self": init}
+    desc = Enum("Descriptor", "SystemSegment", [lo, hi]) if system else Enum("Descriptor", "UserSegment", [lo])
+    for p in pre:
+        it.solver.add(p)
+    try:
+        outs = it.call(fn, [Ref("@self"), desc], z3.BoolVal(True), heap=heap)
+    except Unsupported as e:
+        return dict(verdict="unsupported", why=str(e))
+    need = 2 if system else 1
+    bad = []
+    n_panic = n_ret = 0
+    for pc, o, h in outs:
+        st = (o.env if isinstance(o, Panic) and o.env is not None else h)["@self"]
+        elems = [raw_of(e) for e in st.fields[0].elems]
+        changed = z3.Or(st.fields[1] != ln, *[a != b for a, b in zip(elems, slots)])
+        fits = z3.ULE(ln + BV64(need), BV64(MAX))
+        if isinstance(o, Panic):
+            n_panic += 1
+            bad.append(z3.And(pc, changed))          # a refused append left a trace
+            bad.append(z3.And(pc, fits))             # ... or an append that fits panicked
+        else:
+            n_ret += 1
+            bad.append(z3.And(pc, z3.Not(fits)))     # an append that does not fit returned
+    sv = z3.Solver()
+    for p in pre:
+        sv.add(p)
+    sv.add(z3.Or(*bad) if bad else z3.BoolVal(False))
+    smt2 = "(set-logic ALL)\n" + sv.to_smt2()
+    r = sv.check()
+    res = dict(paths=len(outs), returning_paths=n_ret, panicking_paths=n_panic, z3=str(r), cvc5=cvc5_check(smt2),
+               functions=sorted(it.encoded), solver_s=round(time.time() - t0, 3), MAX=MAX, system=system)
+    if str(r) == "unknown" or res["cvc5"] != str(r):
+        res.update(verdict="inconclusive", why=f"z3={r} cvc5={res['cvc5']}")
+    elif r == z3.sat:
+        m = sv.model()
+        res.update(verdict="violated", len=m.eval(ln, model_completion=True).as_long(),
+                   lo=m.eval(lo, model_completion=True).as_long(), hi=m.eval(hi, model_completion=True).as_long(),
+                   slots=[m.eval(x, model_completion=True).as_long() for x in slots])
+    else:
+        res["verdict"] = "holds"
+    return res
+
+
+def replay_gdt(scratch, results):
+    """Run the counterexamples of decide_gdt_append against the real crate (catch_unwind around append)."""
+    cases = [r for r in results if r.get("verdict") == "violated"]
+    if not cases:
+        return {}
+    d = os.path.join(scratch, "m_replay_gdt")
+    os.makedirs(os.path.join(d, "src"), exist_ok=True)
+    open(os.path.join(d, "Cargo.toml"), "w").write(
+        '[package]\nname = "m_replay_gdt"\nversion = "0.0.0"\nedition = "2021"\n\n[dependencies]\nx86_64 = { path = ".." }\n\n[workspace]\n')
+    body = ["use x86_64::structures::gdt::{Descriptor, GlobalDescriptorTable};", "use std::panic::{catch_unwind, AssertUnwindSafe};",
+            "fn main() {", "    std::panic::set_hook(Box::new(|_| {}));"]
+    for i, r in enumerate(cases):
+        MAX, n = r["MAX"], r["len"]
+        raw = ", ".join(["0"] + [f"{v:#x}" for v in r["slots"][1:n]])
+        dsc = f"Descriptor::SystemSegment({r['lo']:#x}, {r['hi']:#x})" if r["system"] else f"Descriptor::UserSegment({r['lo']:#x})"
+        body += [f"    {{ let mut t = GlobalDescriptorTable::<{MAX}>::from_raw_entries(&[{raw}]);",
+                 "      let before: Vec<u64> = t.entries().iter().map(|e| e.raw()).collect(); let lim = t.limit();",
+                 f"      let r = catch_unwind(AssertUnwindSafe(|| {{ t.append({dsc}); }}));",
+                 "      let after: Vec<u64> = t.entries().iter().map(|e| e.raw()).collect();",
+                 f"      println!(\"{i}|{{}}|{{}}\", r.is_err(), before == after && lim == t.limit()); }}"]
+    body.append("}")
+    open(os.path.join(d, "src", "main.rs"), "w").write("\n".join(body) + "\n")
+    env = dict(os.environ, CARGO_NET_OFFLINE="true", CARGO_TARGET_DIR=os.path.join(scratch, "target-mreplay"))
+    env.pop("RUSTUP_TOOLCHAIN", None)
+    lock = os.path.join(scratch, "Cargo.lock")
+    if os.path.exists(lock):
+        import shutil
+        shutil.copy(lock, os.path.join(d, "Cargo.lock"))
+    p = subprocess.run(["cargo", "+nightly", "run", "--offline", "-q"], cwd=d, env=env, capture_output=True, text=True, timeout=900)
+    out = {}
+    for line in p.stdout.splitlines():
+        parts = line.split("|")
+        if len(parts) == 3:
+            out[int(parts[0])] = (parts[1] == "true", parts[2] == "true")
+    res = {}
+    for i, r in enumerate(cases):
+        panicked, unchanged = out.get(i, (None, None))
+        res[r["obligation"]] = dict(panicked=panicked, unchanged=unchanged, reproduced=(panicked is True and unchanged is False) or (panicked is False),
+                                    build_error=(p.stderr[-500:] if i not in out else ""))
     return res
 
 
@@ -649,7 +884,7 @@ def selftest(fns):
     ad = fns.get((None, None, "align_down"))
     for (x, al, want) in [(0x1234, 0x1000, 0x1000), (0xffff_8000_0000_0000, 1 << 48, 0xffff_0000_0000_0000)]:
         outs = it.call(ad, [BV64(x), BV64(al)], z3.BoolVal(True))
-        vals = [z3.simplify(o).as_long() for pc, o in outs if not isinstance(o, Panic) and it.feasible(pc)]
+        vals = [z3.simplify(o).as_long() for pc, o, _h in outs if not isinstance(o, Panic) and it.feasible(pc)]
         checks.append(("align_down", x, vals == [want]))
     return checks
 
@@ -670,6 +905,14 @@ def main():
             r["ty"] = ob["ty"]
             r["op"] = ob["op"]
             results.append(r)
+    gdt = []
+    if "--gdt" in sys.argv:
+        results = []
+        for MAX in (2, 3, 8):
+            for system in (False, True):
+                r = decide_gdt_append(fns, MAX, system)
+                r["obligation"] = f"GlobalDescriptorTable::<{MAX}>::append({'System' if system else 'User'}Segment): a panicking append leaves the table unchanged; panics exactly when it does not fit"
+                results.append(r)
     json.dump(dict(results=results, selftest=[dict(fn=a, input=b, ok=c) for a, b, c in st], mir_functions=len(fns), wall_s=round(time.time() - t0, 2)), open(out, "w"), indent=1)
 
 
